@@ -13,6 +13,9 @@ pub(crate) mod parser;
 /// [`serde_json`] related functions and types
 pub mod serde;
 pub(crate) mod shape;
+#[cfg(feature = "verif_hooks")]
+/// Verification hooks (feature `verif_hooks`)
+pub mod verif_hooks;
 
 use std::str::FromStr;
 
